@@ -262,6 +262,9 @@ func validateSample(spec HarnessSpec, smp PathSample, n int) (bool, string) {
 	os.WriteFile(modelFile, mb, 0o644)
 	out, _ := runNative(replaySpec(spec), tag, modelFile, 120*time.Second)
 	os.Remove(modelFile)
+	if os.Getenv("GOSMT_DEBUG_SAMPLE") != "" {
+		fmt.Printf("--- sample %s model=%s\n%s\n---\n", tag, mb, out)
+	}
 	if strings.Contains(out, "ZZ-ASSUME-FALSE") {
 		return false, "assumption not satisfiable natively"
 	}
